@@ -176,6 +176,9 @@ func runRaceCase(f []string) string {
 		}
 		return "done"
 	}
+	if pool == "httplate" {
+		return runHTTPLate(ninst, nshots, variant)
+	}
 	mfs := afero.NewMemMapFs()
 	coreimport.Import(mfs)
 	phttpimport.Import(mfs)
@@ -296,3 +299,67 @@ log: {level: error}
 }
 
 
+
+// runHTTPLate: two http pools whose targets are given as host names (localhost:port) and are NOT up
+// while the configuration is decoded, so the pre-resolve fails and the guns keep the process-wide
+// DNS-caching dialer; the targets start afterwards and all instances make their first dials together.
+func runHTTPLate(ninst, nshots int, variant string) string {
+	mfs := afero.NewMemMapFs()
+	coreimport.Import(mfs)
+	phttpimport.Import(mfs)
+	_ = afero.WriteFile(mfs, "/race-users.json", []byte(raceUsers), 0o644)
+	_ = afero.WriteFile(mfs, "/race.uri", []byte("[Host: example.org]\n/a tag1\n/b?x=1 tag2\n"), 0o644)
+	_ = afero.WriteFile(mfs, "/race-http.yaml", []byte(httpScenarioFile("0")), 0o644)
+	ports := []int{freePort(), freePort(), freePort()}
+	var pools []string
+	for i, p := range ports {
+		gun := fmt.Sprintf("{type: http, target: \"localhost:%d\"}", p)
+		ammo := fmt.Sprintf("{type: uri, file: /race.uri, limit: %d}", nshots)
+		if variant == "1" {
+			gun = fmt.Sprintf("{type: http/scenario, target: \"localhost:%d\"}", p)
+			ammo = fmt.Sprintf("{type: http/scenario, file: /race-http.yaml, limit: %d}", nshots)
+		}
+		pools = append(pools, fmt.Sprintf(`  - id: P%d
+    gun: %s
+    ammo: %s
+    result: {type: discard}
+    rps: [{type: unlimited, duration: 30s}]
+    startup: [{type: once, times: %d}]
+`, i, gun, ammo, ninst))
+	}
+	y := "pools:\n" + strings.Join(pools, "") + "log: {level: error}\n"
+	mapCfg := map[string]any{}
+	if err := yaml.Unmarshal([]byte(y), &mapCfg); err != nil {
+		return "yamlerr:" + err.Error()
+	}
+	conf := cli.DefaultConfig()
+	if err := config.DecodeAndValidate(mapCfg, conf); err != nil {
+		return "configerr:" + strings.ReplaceAll(err.Error(), "\n", " ")
+	}
+	total := 0
+	var srvs []*a20.HTTPSrv
+	for _, p := range ports {
+		hs, err := a20.StartHTTPAt(fmt.Sprintf("127.0.0.1:%d", p))
+		if err != nil {
+			return "targeterr"
+		}
+		hs.Record = false
+		defer hs.Stop()
+		srvs = append(srvs, hs)
+	}
+	eng := engine.New(zap.NewNop(), newMetrics(), conf.Engine)
+	ctx, cancel := context.WithTimeout(context.Background(), 60*time.Second)
+	defer cancel()
+	err := eng.Run(ctx)
+	eng.Wait()
+	if err != nil {
+		return "enginerr:" + strings.ReplaceAll(err.Error(), " ", "_")
+	}
+	for _, hs := range srvs {
+		total += int(hs.Count)
+	}
+	if variant != "1" && total != nshots*len(ports) {
+		return fmt.Sprintf("counts:target=%d,expected=%d", total, nshots*len(ports))
+	}
+	return "done"
+}
